@@ -262,7 +262,11 @@ pub fn cmd_walk(jobs_path: &str) {
     let steps = jv["steps"].as_u64().unwrap_or(1000) as usize;
     let mut rng = Lcg(jv["seed"].as_u64().unwrap_or(1).wrapping_mul(2654435761).wrapping_add(12345));
     let mut mapper = match catch_unwind(AssertUnwindSafe(|| Mapper::for_layout(&layout))) { Ok(m) => m, Err(_) => continue };
-    writeln!(out, "{}", json!({"c": "reset", "id": jv["id"], "layout": jlayout(&layout), "keys": jkeys(&keys), "maxheld": maxheld})).unwrap();
+    // out = "looptrace": the run through the loop is written as a call trace for LoopTrace.tla (C10/C12 monitors) instead of as walk steps
+    let as_loop_trace = jv["via"].as_str() == Some("loop") && jv["out"].as_str() == Some("looptrace");
+    if !as_loop_trace {
+      writeln!(out, "{}", json!({"c": "reset", "id": jv["id"], "layout": jlayout(&layout), "keys": jkeys(&keys), "maxheld": maxheld})).unwrap();
+    }
     let mut held: Vec<KeyCode> = vec![];
     // a given history is followed exactly (replay); otherwise the walk is random
     let script: Option<Vec<Value>> = jv.get("history").and_then(|h| h.as_array().cloned());
@@ -270,10 +274,11 @@ pub fn cmd_walk(jobs_path: &str) {
     // the history first (None = the tablet-mode reset), then the run
     // None = the tablet-mode reset; the events listed with it happen while tablet mode is on (key activity the mapper never sees)
     let mut history: Vec<(Option<crate::keys::Event>, Vec<crate::keys::Event>)> = vec![];
+    let ra_pct = jv["ra_pct"].as_u64().unwrap_or(1) as usize;      // how many steps in a hundred are resets
     for si in 0..steps {
       let scripted: Option<&Value> = script.as_ref().map(|h| &h[si]);
       let roll = match scripted { Some(e) => if e["t"].as_str() == Some("RA") { 0 } else { 50 }, None => rng.below(100) };
-      if roll < 1 {
+      if roll < ra_pct {
         let mut unseen = vec![];
         if scripted.is_none() && rng.below(2) == 0 {
           for _ in 0..(1 + rng.below(2)) { let k = keys[rng.below(keys.len())]; unseen.push(if rng.below(3) == 0 { Released(k) } else { Pressed(k) }); }
@@ -282,7 +287,7 @@ pub fn cmd_walk(jobs_path: &str) {
         history.push((None, unseen)); held.clear(); continue;
       }
       // mostly well-formed events, biased towards releasing when many keys are held; some ill-formed ones
-      let ev = if let Some(e) = scripted { pev(e).unwrap() } else if roll < 8 {
+      let ev = if let Some(e) = scripted { pev(e).unwrap() } else if roll < ra_pct + 7 {
         let k = keys[rng.below(keys.len())];
         if held.contains(&k) { Pressed(k) } else { Released(k) }          // ill-formed
       } else if !held.is_empty() && (held.len() >= maxheld || rng.below(100) < 45) {
@@ -295,6 +300,10 @@ pub fn cmd_walk(jobs_path: &str) {
       };
       match &ev { Pressed(k) => { if !held.contains(k) { held.push(*k); } }, Released(k) => held.retain(|h| h != k) }
       history.push((Some(ev), vec![]));
+    }
+    if as_loop_trace {
+      crate::looprun::walk_via_loop_trace(jv["id"].as_str().unwrap_or("walk"), &layout, &history, jv["noise"].as_u64().unwrap_or(0) as u8, &mut out);
+      continue;
     }
     if jv["via"].as_str() == Some("loop") {
       // the same history through the REAL per-device loop and the REAL driver (system-call level): one event per
